@@ -712,6 +712,22 @@ Theorem C07_parafac2_loop_reported_nonincreasing : forall (I : nat) (J : nat -> 
 Proof. exact p2_loop_reported_nonincreasing. Qed.
 Print Assumptions C07_parafac2_loop_reported_nonincreasing.
 
+(* tucker / partial_tucker: the list of errors partial_tucker returns, under any stopping rule (factors with orthonormal columns at the visited states: init='svd',
+   or every state after the first sweep for any init by C07_hooi_first_sweep_orth) *)
+Theorem C07_hooi_loop_reported_nonincreasing : forall (X : tensor R) (rs : list nat) (svd : list (list (list R)) -> nat -> list (list R)) (modes : list nat)
+  (stop : nat -> list R -> bool) (Us : list (list (list R))) (n : nat),
+  run_ok (list (list (list R))) (hooi_sweep svd modes)
+    (fun U => hooi_sweep_ok X rs svd modes U /\ orth_all (shape X) rs U /\ orth_all (shape X) rs (hooi_sweep svd modes U)) n Us ->
+  let h := snd (run_loop (list (list (list R))) R (hooi_sweep svd modes) (tk_reported X rs) stop n Us) in
+  (forall i j : nat, (i <= j)%nat -> (j < length h)%nat -> nth i h 0 <= nth j h 0) /\ (forall i : nat, (i < length h)%nat -> nth i h 0 <= tk_reported X rs Us).
+Proof. exact hooi_loop_reported_nonincreasing. Qed.
+Print Assumptions C07_hooi_loop_reported_nonincreasing.
+(* the stopping tests of the model's rules read as propositions over R: the target against which the tests regenerated from the Python sources are re-checked on
+   every run (corr:C07-static, Stop.v: regenerated test <-> stop_prop (kind of the model's rule), first iteration and tolerance guard equal the model's) *)
+Theorem C07_stop_test_spec : forall (k : stop_kind) (tol a b f : R), stop_test Rops k tol a b f = true <-> stop_prop k tol a b f.
+Proof. exact stop_test_spec. Qed.
+Print Assumptions C07_stop_test_spec.
+
 (* PENALTIES.  What the blocks solve exactly, and what therefore descends, is the PENALISED objective: C07_cp_sweep_descent / C07_cp_history_monotone
    (||X-[[w;A..]]||^2 + l2_reg sum_j ||A_j diag w||^2) and C07_nn_sweep_descent / C07_nn_history_monotone (||X-[[w;A..]]||^2/2 + sum_j sparsity_j sum(A_j)).
    The algorithms REPORT the unpenalised reconstruction error, which is then NOT monotone: blocks that satisfy their contract, lower the
@@ -1022,7 +1038,8 @@ Example C07_loop_rules_nonvacuous :
   tape_iters Qops (rule_of Qops 5 false (1#100)) 10 [1#1; 2#1; 21#10; 211#100; 2111#1000]%Q = 4%nat /\
   tape_iters Qops (rule_of Qops 0 true (1#100)) 10 [1#1; 2#1; 21#10; 211#100; 2111#1000]%Q = 5%nat /\
   tape_iters Qops (rule_of Qops 0 true 0%Q) 5 [1#1; 2#1; 21#10; 211#100; 2111#1000]%Q = 5%nat /\
-  tape_iters Qops (rule_of Qops 4 false (1#10)) 10 [4#1; 2#1; 19#10; 18#10]%Q = 3%nat.
+  tape_iters Qops (rule_of Qops 4 false (1#10)) 10 [4#1; 2#1; 19#10; 18#10]%Q = 3%nat /\
+  tape_iters Qops (rule_of Qops 6 false (1#10)) 10 [4#1; 2#1; 1#2; 3#10; 1#10]%Q = 4%nat.
 Proof. vm_compute. repeat split; reflexivity. Qed.
 Example C07_loop_nonvacuous :
   let step := fun x : R => x / 2 in let ok := fun x : R => 0 <= x in
